@@ -234,6 +234,7 @@ class OpCtx:
         self.cap_factor = max(1, op.get('n', 1)) if op.get('k') == 'bulk' else 1
         self.injected = []            # exception instances injected into this op
         self.async_injected = False   # ... among them a MemoryError / KeyboardInterrupt
+        self.observed_at = -1         # number of source reads when the observed pair was last recorded
         self.inflight = []            # [(content, mtime)] versions the file took while in flight
         self.start = None             # (content, mtime) at op start
         self.src_raws = []            # SimRaw objects this op opened on its source file
@@ -553,6 +554,13 @@ class World:
             raise StepCap('op %d exceeded %d seam steps' % (ctx.index, STEP_CAP))
         self.now += self.tick
         pclass = self.classify(path)
+        if ctx.src_raws and pclass != 'src' and kind != 'read' and ctx.observed_at != len(ctx.src_raws[-1].bytes_read):
+            # The op has read its source and now turns to the cache: from here on what it read can become
+            # visible to others (in-memory item for a thread of the same process, pickle for everybody) -
+            # before the op is finished.  (Soak run, seed 7001419: another thread was served the item while
+            # the op that created it was still parked in its save; the pair was recorded only at the end.)
+            ctx.observed_at = len(ctx.src_raws[-1].bytes_read)
+            self._record_observed(ctx)
         if pclass == 'pkl':
             if kind == 'read':
                 ctx.pkl_read = True
